@@ -270,23 +270,31 @@ def default_configs(tier):
     if tier == "quick":
         # the #if-arm cover with g++ -std=c++11 -O1, plus three points on the compiler / language-level / optimisation axes
         # (bit_cast, the allocator and several helpers switch on __cplusplus and AVEL_GCC vs AVEL_CLANG)
-        return [C.Config(m) for m in C.quick_macro_sets(os.path.join(INC, "avel"))] + [
+        qs = C.quick_macro_sets(os.path.join(INC, "avel"))
+        # arms no (g++, C++11) build selects (guards on AVEL_CLANG, __cplusplus, ...), recomputed from the current tree
+        axis = [C.Config(m, cxx=cxx, std=std, opt="-O1") for m, cxx, std in C.axis_cover(os.path.join(INC, "avel"), qs)]
+        return _dedup([C.Config(m) for m in qs] + axis + [
             C.Config(list(C.EVERYTHING), cxx="clang++", std="c++20", opt="-O2"),
             C.Config(["SSE4_2"], cxx="g++", std="c++20", opt="-O2"),
             C.Config(["AVX2"], cxx="clang++", std="c++14", opt="-O1"),
             # -O0: intrinsics map to instructions literally and _mm_undefined_*() really reads an uninitialised stack slot (the driver poisons the stack)
             C.Config(["SSE2"], opt="-O0"), C.Config(["AVX2", "FMA"], opt="-O0"),
             # what most users build: AVEL_AUTO_DETECT with -march=native (every extension of this CPU, detected from the compiler's macros)
-            C.Config([], cxx="g++", std="c++17", opt="-O2", extra=("-DAVEL_AUTO_DETECT", "-march=native"))]
+            C.Config([], cxx="g++", std="c++17", opt="-O2", extra=("-DAVEL_AUTO_DETECT", "-march=native"))])
     out = [C.Config(m) for m in C.lattice_macro_sets()]
+    out += [C.Config(m, cxx=cxx, std=std, opt="-O1") for m, cxx, std in C.axis_cover(os.path.join(INC, "avel"), [])]
     wide = [[], ["SSE2"], ["SSE4_1"], ["AVX2"], ["AVX512VL", "AVX512BW", "AVX512DQ", "AVX512CD"], list(C.EVERYTHING)]
     for m in wide:
         out.append(C.Config(m, cxx="clang++", std="c++11", opt="-O1"))
         out.append(C.Config(m, cxx="g++", std="c++20", opt="-O2"))
         out.append(C.Config(m, cxx="clang++", std="c++17", opt="-O2"))
         out.append(C.Config(m, cxx="g++", std="c++14", opt="-O0"))
+    return _dedup(out)
+
+
+def _dedup(cfgs):
     seen, res = set(), []
-    for c in out:
+    for c in cfgs:
         if c.name not in seen:
             seen.add(c.name)
             res.append(c)
